@@ -21,6 +21,7 @@ import (
 	"fmt"
 	"regexp/syntax"
 	"sort"
+	"strings"
 	"sync"
 )
 
@@ -265,6 +266,9 @@ check:
 	case td != nil:
 		source = "builtin"
 		// This was a base type
+	case strings.HasPrefix(t.Name, ":"):
+		// A prefix is an identifier: ":name" refers to nothing.
+		return []error{fmt.Errorf("%s: unknown type: %s (it has an empty prefix)", Source(t), t.Name)}
 	case prefix == "" || rootPrefix == prefix:
 		source = "local"
 		// If we have no prefix, or the prefix is what we call our own
